@@ -7,6 +7,6 @@ UNITS = C01.UNITS
 LEVEL = C01.LEVEL; TECHNIQUE = C01.TECHNIQUE; FUNCTION_PATTERNS = C01.FUNCTION_PATTERNS; VALIDATE_VECTORS = 100
 def validation_queries(tier): return C01.validation_queries(tier)[:2]
 def queries(tier):   # scenarios that free, deallocate or realloc (in place, moving, across the small/large threshold, null and zero cases), no faults
-    return C01.select(tier, lambda t: not t['lockset'] and not t['faults'] and any(o in (1, 2, 3) for o in t['ops']) and t['pol'] in (1, 3))
+    return C01.select(tier, lambda t: not t['lockset'] and not t['preempt'] and not t['faults'] and any(o in (1, 2, 3) for o in t['ops']) and t['pol'] in (1, 3))
 ASSUMPTIONS = C01.ASSUMPTIONS + ['footprint clause: slabs mapped per class <= ceil(peak live blocks of the class / blocks per slab), asserted from harness counters after every operation']
 OUTSIDE = C01.OUTSIDE + ['arbitrarily long alloc/free churn (bounded histories only)']
